@@ -35,7 +35,7 @@ def labelled_programs(
         `"import_internally:my_program"`, while `"import:itertools"` would be left untouched.
     """
     programs: Programs = list_programs(directory, **kwargs)
-    internal_program_paths = {p.path.replace("/", ".") for p in programs}  # path sep -> import sep
+    internal_program_paths = {p.path for p in programs}
     internal_program_paths.add(".py")  # for `from . import foobar`, the module name will be ""
     parse = ProgramParser()
     print(f"Labelling {len(programs)} programs.")
@@ -43,7 +43,7 @@ def labelled_programs(
         program.labels[:] = parse(program)  # populate this field in place with [:]
         for (i, label) in enumerate(program.labels):
             m = search_imported_program_path(label.name)
-            if m and f"{m[1]}.py" in internal_program_paths:
+            if m and f"{m[1].replace('.', '/')}.py" in internal_program_paths:  # import sep -> path sep
                 tweaked_label_name = label.name.replace(":", "_internally:", 1)
                 tweaked_label_name = tweaked_label_name.replace(".", "/")  # import sep -> path sep
                 program.labels[i] = Label(name=LabelName(tweaked_label_name), spans=label.spans)
